@@ -6,6 +6,7 @@ import (
 	"encoding/hex"
 	"encoding/json"
 	"fmt"
+	"github.com/scionproto/scion/private/drkey/drkeyutil"
 	"os"
 	"sync"
 	"time"
@@ -377,6 +378,10 @@ func (f *fz) c09One(idx int) bool {
 	}
 	// ---- run ----
 	f.li.put(f.id, v.Idx, "c09", raw, in)
+	var again []byte
+	if f.acrossEpoch {
+		again = append([]byte(nil), raw...)
+	}
 	t0 := time.Now()
 	res := s.Process(raw, in)
 	t1 := time.Now()
@@ -456,6 +461,25 @@ func (f *fz) c09One(idx int) bool {
 	}
 	viol := func(key, what string) { reportViolation(f.r, key, what, wit()) }
 	f.judgeSCMPError(s, v, raw, h, &res, cname, cause >= 0, ex, opts.Epic, outcome, t0, t1, viol)
+	if f.acrossEpoch && v.Auth && f.drk != nil {
+		// the same offender, the same router, the next DRKey epoch
+		d := f.drk.EpochDuration
+		next := time.Now().Truncate(d).Add(d).Add(30 * time.Millisecond)
+		time.Sleep(time.Until(next))
+		t0 = time.Now()
+		res = s.Process(again, in)
+		t1 = time.Now()
+		f.a.eval()
+		if res.Panic == "" && res.ViaSlow && res.SlowKind >= 0 && res.Out != nil {
+			f.a.event("across_epoch_rejudged")
+			f.a.class("across-epoch/" + cname)
+			outcome = outcomeOf(&res)
+			viol2 := func(key, what string) {
+				reportViolation(f.r, key, what+" (same offender again in the next DRKey epoch)", wit())
+			}
+			f.judgeSCMPError(s, v, again, h, &res, cname, cause >= 0, ex, opts.Epic, outcome, t0, t1, viol2)
+		}
+	}
 	return true
 }
 
@@ -623,8 +647,12 @@ func (f *fz) checkAuth(out []byte, m *rfix.SCMPInfo, t0, t1 time.Time, viol func
 		viol("C09:auth-malformed", "destination host of an authenticated message does not parse")
 		return
 	}
-	k0, _ := fakeDRKey.GetASHostKey(t0, f.sl.DstIA, dst)
-	k1, _ := fakeDRKey.GetASHostKey(t1, f.sl.DstIA, dst)
+	drk := fakeDRKey
+	if f.drk != nil {
+		drk = f.drk
+	}
+	k0, _ := drk.GetASHostKey(t0, f.sl.DstIA, dst)
+	k1, _ := drk.GetASHostKey(t1, f.sl.DstIA, dst)
 	if k0.Epoch != k1.Epoch {
 		f.r.Inconclusive("time-bracket(drkey-epoch)")
 		return
@@ -684,7 +712,35 @@ func checkC09(r *mon.Run) {
 		}
 		fzs[w] = f
 	}
+	// epoch phase: routers whose DRKey epochs last 2 s (the documented testing
+	// knob of the router), created while the knob is set; each worker provokes
+	// authenticated errors and repeats them in the following epoch
+	const epochLen = 2 * time.Second
+	os.Setenv(drkeyutil.EnvVarEpochDuration, epochLen.String())
+	efs := make([]*fz, r.Pick(4, 8))
+	for w := range efs {
+		v := starVariant{Idx: 20 + w, Reuse: w%2 == 0, Auth: true}
+		efs[w] = &fz{r: r, id: 0, rng: r.Rand(fmt.Sprintf("c09-epoch-%d", w)), a: newAgg(r), li: &lastInput{}, variants: []starVariant{v},
+			stars: []*rfix.Star{newFuzzStar(r, v)}, acrossEpoch: true,
+			drk: &drkeyutil.FakeProvider{EpochDuration: epochLen, AcceptanceWindow: drkeyutil.LoadAcceptanceWindow()}}
+	}
+	os.Unsetenv(drkeyutil.EnvVarEpochDuration)
 	var wg sync.WaitGroup
+	for _, f := range efs {
+		wg.Add(1)
+		go func(f *fz) {
+			defer wg.Done()
+			n := f.r.Pick(2, 12)
+			for i := 0; i < n; i++ {
+				before := f.a.count("across_epoch_rejudged")
+				for try := 0; try < 400 && f.a.count("across_epoch_rejudged") == before; try++ {
+					f.acrossEpoch = true
+					f.c09One(i)
+				}
+			}
+			f.a.flush()
+		}(f)
+	}
 	for _, f := range fzs {
 		wg.Add(1)
 		go func(f *fz) {
@@ -704,7 +760,7 @@ func checkC09(r *mon.Run) {
 	}
 	wg.Wait()
 	need := []string{"placement_headroom", "placement_packed-at-end", "quote_exact_prefix", "pointer_ok", "auth_mac_ok",
-		"scmp_error_offender_not_answered", "scmp_info_offender_answered", "quote_maximal"}
+		"scmp_error_offender_not_answered", "scmp_info_offender_answered", "quote_maximal", "across_epoch_rejudged"}
 	for c := 0; c < int(numCauses); c++ {
 		need = append(need, "emitted:"+causeNames[c])
 	}
